@@ -1,4 +1,6 @@
-"""Scalar functions of cnvlib/call.py translated body-for-body into Gen/FnCall.v."""
+"""Scalar functions of cnvlib/call.py translated body-for-body into Gen/FnCall.v (copy-number path: C01, and
+_reference_copies_pure for C02) and Gen/FnCallBaf.v (BAF path: C02).  Two generated modules, so that a change to (or a
+refusal of) the BAF code does not touch the obligations of C01 and vice versa."""
 MODULES = {
     'FnCall': ('cnvlib/call.py', [
         dict(name='_log2_ratio_to_absolute_pure', coq='fn_log2_ratio_to_absolute_pure',
@@ -7,7 +9,26 @@ MODULES = {
              params=[('log2_ratio', 'Q'), ('ref_copies', 'Z'), ('expect_copies', 'Z'), ('purity', 'OQ')], ret='Q'),
         dict(name='_reference_copies_pure', coq='fn_reference_copies_pure',
              params=[('chrom', 'S'), ('ploidy', 'Z'), ('is_haploid_x_reference', 'B')], ret='Z'),
+        # log2_ratios read per element: `absolutes` one value, the two row masks as boolean parameters
+        # (Proofs/FnCall.v: C01_source_log2_ratios -- equals Model/Call.v `rescaled` in ratio space)
+        dict(name='log2_ratios', coq='fn_log2_ratios',
+             py_params=['cnarr', 'absolutes', 'ploidy', 'is_haploid_x_reference', 'diploid_parx_genome', 'min_abs_val',
+                        'round_to_int'],
+             params=[('absolutes', 'Q'), ('ploidy', 'Z'), ('is_haploid_x_reference', 'B'), ('min_abs_val', 'Q'),
+                     ('round_to_int', 'B'),
+                     ('cnarr.chr_x_filter(diploid_parx_genome).values', 'B', 'on_x'),
+                     ('cnarr.chr_y_filter(diploid_parx_genome).values', 'B', 'on_y')], ret='Q'),
+    ]),
+    'FnCallBaf': ('cnvlib/call.py', [
         dict(name='rescale_baf', coq='fn_rescale_baf',
              params=[('purity', 'Q'), ('observed_baf', 'Q'), ('normal_baf', 'Q')], ret='Q'),
+        # the allelic split of do_call (upper_baf ... the NaN masks), read per element
+        # (Proofs/FnCallBaf.v: C02_source_alleles -- equals Model/Baf.v `alleles`)
+        dict(name='do_call', coq='fn_alleles',
+             py_params=['cnarr', 'variants', 'method', 'ploidy', 'purity', 'is_haploid_x_reference', 'is_sample_female',
+                        'diploid_parx_genome', 'filters', 'thresholds'],
+             fragment=dict(first='upper_baf = ', last="outarr['cn2'] = np.nan if"),
+             params=[("outarr['baf']", 'OQ', 'baf'), ('absolutes', 'Q'), ("outarr['cn']", 'Z', 'cn')],
+             returns=["outarr['cn1']", "outarr['cn2']"], ret=['OZ', 'OZ']),
     ]),
 }
